@@ -29,7 +29,10 @@ def imp(src, name):
     dst = os.path.join(SEEDED, name)
     os.makedirs(dst, exist_ok=True)
     for f in os.listdir(src):
-        shutil.copy(os.path.join(src, f), os.path.join(dst, f))
+        if os.path.isdir(os.path.join(src, f)):
+            shutil.copytree(os.path.join(src, f), os.path.join(dst, f), dirs_exist_ok=True)
+        else:
+            shutil.copy(os.path.join(src, f), os.path.join(dst, f))
     print("imported", name)
 
 
@@ -52,6 +55,9 @@ def verify(name):
         cmd = re.sub(r"/tmp/seed-out/%s" % name, d, cmd)
         cmd = cmd.replace("<worktree>", wt).replace("<repo>", wt)
         # place demo files when the command does not copy them itself
+        for f in os.listdir(d):
+            if os.path.isdir(os.path.join(d, f)):
+                shutil.copytree(os.path.join(d, f), os.path.join(wt, f), dirs_exist_ok=True)
         if "cp " not in cmd:
             m = re.search(r"go test[^\n]*?\s\./([\w/]+?)/?(?:\.\.\.)?(?:\s|$)", cmd)
             sub = m.group(1) if m else "seeddemo_%s" % meta.get("label", "a")
